@@ -226,7 +226,7 @@ func ruleR06R07(c *Ctx) {
 		}
 		// leaf pointers with a pedigree: results of minimum/maximum, the pointer parameter of restoreKey
 		fl.walk(func(n ast.Node, fs *FactSet, stmt ast.Node, b *cfg.Block) {
-			if os.Getenv("ARTCHECK_DEBUG") == "walk" && u.Name == "alphaSortedTree.Insert" && n == stmt {
+			if os.Getenv("ARTCHECK_WALK") == u.Name && n == stmt {
 				fmt.Fprintf(os.Stderr, "WALK %s b%d %v\n", m.pos(n.Pos()), b.Index, fs.describe())
 			}
 			switch x := n.(type) {
@@ -290,6 +290,8 @@ func ruleR06R07(c *Ctx) {
 								c.r.ok("R06", key, m.pos(x.Pos()), "under the tag fact "+m.LeafKind.Name, props...)
 							} else if c.leafByElimination(fs, psel.X) {
 								c.r.ok("R06", key, m.pos(x.Pos()), "every inner kind is excluded on this path", props...)
+							} else if why := c.kindByElimination(u, fs, psel.X, leafV); why != "" {
+								c.r.ok("R06", key, m.pos(x.Pos()), why, props...)
 							} else {
 								c.r.bad("R06", key, m.pos(x.Pos()), "reference is read as a leaf without a dominating test that its tag is "+m.LeafKind.Name, props...)
 							}
@@ -395,7 +397,14 @@ func ruleR06R07(c *Ctx) {
 				tv, hasC := info.Types[ix.Index]
 				ki := m.kindByStruct(info.TypeOf(x.Type))
 				key := fmt.Sprintf("%s pool Get as %s", u.Name, types.ExprString(x.Type))
-				if !hasC || tv.Value == nil || ki == nil {
+				if why, bad, done := c.poolAccessor(u, ix.Index, x.Type); done {
+					// a generic accessor (acquire[N](kind)): kind and layout are paired at its call sites
+					if bad != "" {
+						c.r.bad("R06", key, bad, why, append(props, "C12")...)
+					} else {
+						c.r.ok("R06", key, m.pos(x.Pos()), why, append(props, "C12")...)
+					}
+				} else if !hasC || tv.Value == nil || ki == nil {
 					c.r.undecided("R06", key, m.pos(x.Pos()), "pool index is not a constant kind or asserted type is not a node layout", props...)
 				} else if tv.Value.ExactString() == fmt.Sprint(ki.Value) {
 					c.r.ok("R06", key, m.pos(x.Pos()), "pool index "+ki.Name+" matches asserted layout", append(props, "C12")...)
@@ -557,7 +566,7 @@ func (c *Ctx) leafPedigree(u *FuncUnit, fs *FactSet, arg ast.Expr) string {
 				var at *FactSet
 				c.e.flow(s.u).walk(func(n ast.Node, fs *FactSet, stmt ast.Node, b *cfg.Block) {
 					if n == ast.Node(s.call) && at == nil {
-						at = fs
+						at = fs.clone()
 					}
 				})
 				if at == nil {
@@ -910,7 +919,7 @@ func (c *Ctx) visitorParamPedigree(u *FuncUnit, id *ast.Ident) string {
 		var at *FactSet
 		c.e.flow(holder).walk(func(n ast.Node, fs *FactSet, stmt ast.Node, b *cfg.Block) {
 			if n == ast.Node(call) && at == nil {
-				at = fs
+				at = fs.clone()
 			}
 		})
 		if at == nil {
@@ -978,6 +987,45 @@ func (c *Ctx) kindByElimination(u *FuncUnit, fs *FactSet, ref ast.Expr, want int
 	if !ok || u.Lit != nil || u.Decl == nil {
 		return ""
 	}
+	if m.paramIndex(u, id) < 0 {
+		// a copy of what a slot parameter points at, taken before anything else happens
+		// (old := *ref as the first statements of a helper): what the callers know about *ref
+		v := identVar(info, id)
+		def, live := fs.aliasOf(v)
+		if !live {
+			return ""
+		}
+		st, ok := ast.Unparen(def).(*ast.StarExpr)
+		if !ok {
+			return ""
+		}
+		pid, ok := ast.Unparen(st.X).(*ast.Ident)
+		if !ok || m.paramIndex(u, pid) < 0 {
+			return ""
+		}
+		for _, s := range u.Body.List {
+			as, isDef := s.(*ast.AssignStmt)
+			if isDef && as.Tok == token.DEFINE && len(as.Lhs) == 1 && identVar(info, as.Lhs[0]) == v {
+				break
+			}
+			quiet := isDef && as.Tok == token.DEFINE
+			if _, isDecl := s.(*ast.DeclStmt); isDecl {
+				quiet = true
+			}
+			ast.Inspect(s, func(n ast.Node) bool {
+				if call, ok := n.(*ast.CallExpr); ok && !isConversion(info, call) {
+					if bi, ok := ast.Unparen(call.Fun).(*ast.Ident); !ok || (bi.Name != "len" && bi.Name != "cap" && bi.Name != "min" && bi.Name != "max") {
+						quiet = false
+					}
+				}
+				return true
+			})
+			if !quiet {
+				return ""
+			}
+		}
+		id = pid
+	}
 	pi := m.paramIndex(u, id)
 	if pi < 0 || assignedAnywhere(info, u.Body, identVar(info, id)) {
 		return ""
@@ -994,7 +1042,7 @@ func (c *Ctx) kindByElimination(u *FuncUnit, fs *FactSet, ref ast.Expr, want int
 		var at *FactSet
 		c.e.flow(s.u).walk(func(n ast.Node, f *FactSet, stmt ast.Node, b *cfg.Block) {
 			if n == ast.Node(s.call) && at == nil {
-				at = f
+				at = f.clone()
 			}
 		})
 		if at == nil {
@@ -1002,6 +1050,9 @@ func (c *Ctx) kindByElimination(u *FuncUnit, fs *FactSet, ref ast.Expr, want int
 		}
 		siteEx := map[int64]bool{}
 		known, ex := at.tagOf(a)
+		if os.Getenv("ARTCHECK_DEBUG") == "elim" {
+			fmt.Fprintf(os.Stderr, "ELIM %s site %s arg %s want %s known=%v facts=%v\n", u.Name, s.u.Name, types.ExprString(a), at.canonTag(a), known, at.describe())
+		}
 		for k := range ex {
 			siteEx[k] = true
 		}
@@ -1020,4 +1071,78 @@ func (c *Ctx) kindByElimination(u *FuncUnit, fs *FactSet, ref ast.Expr, want int
 		}
 	}
 	return fmt.Sprintf("every other kind is excluded: by the tests of %s on this path and by what each of its %d call sites knows about the argument", u.Name, len(sites))
+}
+
+// poolAccessor: u is a helper that takes the pool index as a parameter and asserts the object it
+// gets as a pointer to one of its type parameters (func acquire[N any](kind nodeKind) *N). The
+// pairing of pool and layout is then decided at every call site: the type argument's layout kind
+// is the constant kind passed. done is false when u has not this shape.
+func (c *Ctx) poolAccessor(u *FuncUnit, index ast.Expr, asserted ast.Expr) (why, badAt string, done bool) {
+	m := c.m
+	info := m.Info
+	if u.Lit != nil || u.Decl == nil || u.Obj == nil {
+		return
+	}
+	id, ok := ast.Unparen(index).(*ast.Ident)
+	if !ok {
+		return
+	}
+	pi := m.paramIndex(u, id)
+	if pi < 0 || assignedAnywhere(info, u.Body, identVar(info, id)) {
+		return
+	}
+	pt, ok := info.TypeOf(asserted).(*types.Pointer)
+	if !ok {
+		return
+	}
+	tp, ok := types.Unalias(pt.Elem()).(*types.TypeParam)
+	if !ok {
+		return
+	}
+	sig, _ := u.Obj.Type().(*types.Signature)
+	ti := -1
+	if sig != nil && sig.TypeParams() != nil {
+		for i := 0; i < sig.TypeParams().Len(); i++ {
+			if sig.TypeParams().At(i) == tp {
+				ti = i
+			}
+		}
+	}
+	if ti < 0 {
+		return
+	}
+	done = true
+	sites := c.callSitesOf(u)
+	if len(sites) == 0 {
+		return "the generic pool accessor " + u.Name + " has no call site", m.pos(u.Decl.Pos()), true
+	}
+	for _, s := range sites {
+		fun := ast.Unparen(s.call.Fun)
+		var fid *ast.Ident
+		switch f := fun.(type) {
+		case *ast.IndexExpr:
+			fid, _ = ast.Unparen(f.X).(*ast.Ident)
+		case *ast.IndexListExpr:
+			fid, _ = ast.Unparen(f.X).(*ast.Ident)
+		case *ast.Ident:
+			fid = f
+		}
+		a := argFor(s.call, pi)
+		if fid == nil || a == nil {
+			return "call of " + u.Name + " whose kind and type argument cannot be read", m.pos(s.call.Pos()), true
+		}
+		inst, ok := info.Instances[fid]
+		if !ok || inst.TypeArgs.Len() <= ti {
+			return "call of " + u.Name + " without an instantiation", m.pos(s.call.Pos()), true
+		}
+		ki := m.kindByStruct(inst.TypeArgs.At(ti))
+		tv, hasC := info.Types[a]
+		if ki == nil || !hasC || tv.Value == nil {
+			return fmt.Sprintf("call of %s: the kind argument is not a constant or the type argument %s is not a node layout", u.Name, inst.TypeArgs.At(ti)), m.pos(s.call.Pos()), true
+		}
+		if tv.Value.ExactString() != fmt.Sprint(ki.Value) {
+			return fmt.Sprintf("object taken from pool %s is asserted as %s", types.ExprString(a), inst.TypeArgs.At(ti)), m.pos(s.call.Pos()), true
+		}
+	}
+	return fmt.Sprintf("generic accessor: at each of its %d call sites the constant kind is the kind of the layout type argument", len(sites)), "", true
 }
